@@ -748,11 +748,15 @@ Proof.
     rewrite V2, aget_adel_same by apply HB1. cbn [stake_of].
     apply Bal_same in HB2; [|lia]. destruct HB2 as [W C]. subst after.
     split; [exact W|]. split; [exact C|]. lia.
-  - bind_inv H. bind_inv H. bind_inv H.
-    assert (T : fr_tally s0 s3) by tally.
+  - bind_inv H. bind_inv H.
+    assert (T : fr_tally s0 s2).
+    { eapply fr_tally_trans; [eapply sub_staked_tally; eassumption|].
+      destruct (v_delegate v).
+      - bind_inv E1. bind_inv E1. tally.
+      - bind_inv E1. tally. }
     pose proof (Bal_tally _ _ _ _ T HB1) as HB3.
     destruct T as (_ & _ & V3 & _ & T3 & _). rewrite <- V3 in Hget.
-    assert (R : restake a after s3 s').
+    assert (R : restake a after s2 s').
     { match type of H with (if ?c then _ else _) = _ => destruct c end; ok_inv H.
       - exact (set_unstaking_val_restake _ _ _ _).
       - exact (put_val_restake _ _ _). }
